@@ -385,9 +385,21 @@ func runCodec(cs *Case) (w *World) {
 				return w
 			}
 			if hasMerge {
+				// the same on a per-block clone of the buffer (what commit.Channel hands to consumers),
+				// taken before the original is rewritten
+				blks := blocksOf(issued)
+				blk := blks[rng.Intn(len(blks))]
+				cl := (&commit.Commit{ID: 1, Chunk: commit.Chunk(blk), Updates: []*commit.Buffer{buf}}).Clone()
 				if v := w.swapCheck(buf, c.Kind, issued, rng); v != nil {
 					w.fail(v)
 					return w
+				}
+				if len(cl.Updates) == 1 {
+					if v := w.swapCheck(cl.Updates[0], c.Kind, opsOfBlock(issued, blk), rng); v != nil {
+						v.Detail = "on the per-block clone of the buffer: " + v.Detail
+						w.fail(v)
+						return w
+					}
 				}
 			}
 		}
